@@ -76,7 +76,19 @@ MIRelations(e) == ("mi" \notin DOMAIN e.obs.x /\ "mi_perm" \notin DOMAIN e.obs.x
 BinMIWith(e, den) == "bin2" \notin DOMAIN e.obs.x => \A a \in 1..N : \A b \in 1..N : \A L \in 0..e.taumax :
    a # b => Close(e.obs.bin2[a][b][L + 1],
                   RDiv(QuantileMINumerator(LagX(e.data, a, L, e.taumax), LagY(e.data, b, e.taumax), 2), den), Tol)
+\* lag_mode = "max" of mutual_information: the value is the largest entry of the lag function (not below 0,
+\* where the search starts) and the lag points at an entry with that value
+MIMaxIsAll(e, all, mx) == (all \notin DOMAIN e.obs.x /\ mx \notin DOMAIN e.obs.x /\ e.obs[mx] # <<>>) =>
+   \A a \in 1..N : \A b \in 1..N : a # b =>
+     LET f == e.obs[all][a][b]  v == e.obs[mx][1][a][b]  l == e.obs[mx][2][a][b]
+         nums == {f[k] : k \in {kk \in 1..Len(f) : IsNum(f[kk])}}
+         top == IF nums = {} THEN 0 ELSE Max2(0, CHOOSE t \in nums : \A u \in nums : t >= u)
+     IN (\A k \in 1..Len(f) : IsNum(f[k]) /\ f[k] < 1500000000) =>
+          /\ Close(v, top, Tol)
+          /\ (top > Tol => l \in 0..e.taumax /\ Close(f[l + 1], top, Tol))
 Checks(e) == <<
+  <<"MaxIsAll|mutual_information(binning)", MIMaxIsAll(e, "bin2", "bin2max")>>,
+  <<"MaxIsAll|mutual_information(gauss)", MIMaxIsAll(e, "gauss", "gaussmax")>>,
   <<"BinnedMIScale|mutual_information(binning)", BinMIWith(e, e.T)>>,
   <<"BinnedMIDef|mutual_information(binning)", BinMIWith(e, e.T - e.taumax)>>,
   <<"Relations|MutualInfoClimateNetwork.similarity_measure", MIRelations(e)>>,
@@ -101,7 +113,7 @@ GaussUndefined(e) == \E a \in 1..N : \E b \in 1..N : \E L \in 0..e.taumax :
    a # b /\ (Var(x) = 0 \/ Var(y) = 0 \/ Var(x) * Var(y) = Cov(x, y) * Cov(x, y))
 Verdict(e) ==
   \* (with a constant series the correlation matrix has no inverse: the partial correlation is undefined)
-  IF DOMAIN e.obs.x \ ((IF GaussUndefined(e) THEN {"gauss"} ELSE {}) \cup (IF Constant(e) THEN {"partial"} ELSE {})
+  IF DOMAIN e.obs.x \ ((IF GaussUndefined(e) THEN {"gauss", "gaussmax"} ELSE {}) \cup (IF Constant(e) THEN {"partial"} ELSE {})
                      \* (all series constant: no common range to bin)
                      \cup (IF \A j \in 1..N : Var(Col(e, j)) = 0 THEN {"mi", "mi_perm"} ELSE {})) # {} THEN <<"REJECT", "Applicable", JoinSet({k \o ":" \o e.obs.x[k] : k \in DOMAIN e.obs.x}), Tags(e)>>
   ELSE LET f == FailsOf(Checks(e), "") IN
